@@ -110,7 +110,7 @@ class BaseExtractor:
                             from_expression_element, holder
                         )
                     # each comma separated item can carry explicit joins of its own
-                    for join_clause in from_expression.get_children("join_clause"):
+                    for join_clause in list_join_clause(from_expression):
                         tables += self._list_table_from_from_clause_or_join_clause(
                             join_clause, holder
                         )
